@@ -21,8 +21,8 @@ import (
 
 // Site names of the stand-alone tables.
 const (
-	siteClassDefCount = "classdef.format1Count"      // format 1 over all 65536 glyphs: glyphCount wraps to 0
-	siteGdefHeader    = "gdef.headerOffset"          // a sub-table of GDEF starts beyond 64 KiB
+	siteClassDefCount = "classdef.format1Count" // format 1 over all 65536 glyphs: glyphCount wraps to 0
+	siteGdefHeader    = "gdef.headerOffset"     // a sub-table of GDEF starts beyond 64 KiB
 )
 
 // drawHuge decides whether a table with (tens of) thousands of entries is
